@@ -54,3 +54,46 @@ def repro_KF_C13_duplicate_texts(f):
 
 def match_KF_C13_duplicate_texts(f, v):
     return v.get("carve_out") == "duplicate-texts"
+
+
+# ---- KF-C19-fixed-gamma -----------------------------------------------------------
+def repro_KF_C19_fixed_gamma(f):
+    from oracle.gen import cond
+    from inference.c_revision import c_revision
+    from inference.preocf import PreOCF
+    from oracle.core import ev
+
+    w = f["witness"]
+    sig = w["signature"]
+    ranks = {k: 0 for k in PreOCF.create_bitvec_world_dict(sig)}
+    pre = PreOCF.init_custom(ranks, signature=sig)
+    conds = []
+    for idx, b, a in w["conditionals"]:
+        c = cond(b, a)
+        c.index = idx
+        conds.append(c)
+    res = c_revision(pre, conds, gamma_plus_zero=w["gamma_plus_zero"], fixed_gamma_minus={int(k): v for k, v in w["fixed_gamma_minus"].items()})
+    if res is None:
+        return False
+    # revised ranking over explicit worlds; is every conditional accepted?
+    def kstar(bits):
+        wd = {s: bits[i] == "1" for i, s in enumerate(sig)}
+        r = ranks[bits]
+        for c in conds:
+            a, b = ev(c.antecedence, wd), ev(c.consequence, wd)
+            if a and b:
+                r += res.get(f"gamma+_{c.index}", 0)
+            if a and not b:
+                r += res.get(f"gamma-_{c.index}", 0)
+        return r
+
+    for c in conds:
+        v = [kstar(x) for x in ranks if ev(c.antecedence, {s: x[i] == "1" for i, s in enumerate(sig)}) and ev(c.consequence, {s: x[i] == "1" for i, s in enumerate(sig)})]
+        n = [kstar(x) for x in ranks if ev(c.antecedence, {s: x[i] == "1" for i, s in enumerate(sig)}) and not ev(c.consequence, {s: x[i] == "1" for i, s in enumerate(sig)})]
+        if not v or (n and not min(v) < min(n)):
+            return True  # a dict was returned but the revised ranking does not accept
+    return False
+
+
+def match_KF_C19_fixed_gamma(f, v):
+    return "fixed-gamma" in str(v.get("carve_out"))
